@@ -103,6 +103,28 @@ def gen_plan(rng, cfg, tier, profile):
   if profile == 'c19':
     weights.update(schema=2, sleep=4)
   kinds = [k for k, wgt in weights.items() for _ in range(wgt)]
+  structured = profile == 'c09' and rng.random() < 0.6
+  if structured:
+    # pause/resume cycles: a burst that crosses the high watermark, a sleep that
+    # lands R's next ops at the instant the writer wakes, then connection churn
+    ops = []
+    mx = s.get('MAX_CACHE_SIZE', 4)
+    mx = 4 if mx == float('inf') else int(mx)
+    for _ in range(rng.randint(1, 4)):
+      for _ in range(rng.randint(1, 3)):
+        ops.append(['send', rng.randrange(4), gen_dps(rng, rng.randint(1, mx + 2), counter, names)])
+      ops.append(['sleep', rng.choice([1.0, 1.0, 1.0, 0.5, 2.0, 0.999])])
+      for _ in range(rng.randint(0, 3)):
+        k = rng.choice(['connect', 'connect', 'disconnect', 'send', 'udp'])
+        if k == 'connect':
+          ops.append(['connect', rng.choice(['line', 'pickle'])])
+        elif k == 'disconnect':
+          ops.append(['disconnect', rng.randrange(4), rng.random() < 0.5])
+        elif k == 'send':
+          ops.append(['send', rng.randrange(4), gen_dps(rng, rng.randint(1, 3), counter, names)])
+        else:
+          ops.append(['udp', gen_dps(rng, rng.randint(1, 3), counter, names)])
+    nops = 0
   burst = s.get('MAX_CACHE_SIZE', float('inf'))
   for i in range(nops):
     k = rng.choice(kinds)
@@ -142,6 +164,9 @@ def gen_plan(rng, cfg, tier, profile):
     plan['wops'] = wops
   plan['p_preempt'] = rng.choice([0.005, 0.02, 0.05, 0.1, 0.2, 0.5])
   plan['p_lock'] = rng.choice([None, 0.5, 0.5, 0.9])
+  if profile == 'c09' and rng.random() < 0.7:
+    hot = rng.choice([0.2, 0.5, 0.8])
+    plan['file_p'] = {'e': hot, 'p': rng.choice([hot, 0.1])}
   if profile == 'c03' and rng.random() < 0.8:
     nf = rng.choice([1, 1, 2, 3, 6])
     faults = {}
